@@ -75,7 +75,9 @@ impl RealVectorStateSpace {
                     });
                 }
                 for bound in &explicit_bounds {
-                    if bound.0 >= bound.1 {
+                    // The negated `<` also rejects NaN, for which every comparison is false.
+                    #[allow(clippy::neg_cmp_op_on_partial_ord)]
+                    if !(bound.0 < bound.1) {
                         return Err(StateSpaceError::InvalidBound {
                             lower: bound.0,
                             upper: bound.1,
